@@ -294,8 +294,24 @@ pub fn run_witnesses(ctx: &Ctx, prop: &str, id: &str, acc: &mut Acc) {
 /// last two boundaries): for families whose texts are too long for the every-offset sweep.
 /// `groups` = false: only the overall span is judged (C01); true: only cases whose span agrees (C02).
 pub fn run_pairs(ctx: &Ctx, prop: &str, items: &[(Node, Vec<String>)], groups: bool, budget: u64) -> Acc {
+    let items: Vec<PairItem> = items.iter().map(|(p, t)| PairItem { pattern: p.clone(), reference: None, texts: t.clone(), all_offsets: false }).collect();
+    run_items(ctx, prop, &items, groups, budget)
+}
+
+/// One explicit case family member: the pattern handed to the crate, optionally a different tree
+/// that states what it means for the reference matcher (e.g. case-insensitivity spelled out as
+/// classes), and its texts.
+pub struct PairItem {
+    pub pattern: Node,
+    pub reference: Option<Node>,
+    pub texts: Vec<String>,
+    pub all_offsets: bool,
+}
+
+pub fn run_items(ctx: &Ctx, prop: &str, items: &[PairItem], groups: bool, budget: u64) -> Acc {
     let _ = ctx;
-    par_run(items, true, Some(20_000_000), |_, (p, texts), acc| {
+    par_run(items, true, Some(20_000_000), |_, it, acc| {
+        let (p, texts) = (&it.pattern, &it.texts);
         refm::F1_COMPAT.with(|c| c.set(false));
         let s = p.print();
         let re = match compile(&s) {
@@ -309,11 +325,14 @@ pub fn run_pairs(ctx: &Ctx, prop: &str, items: &[(Node, Vec<String>)], groups: b
                 return;
             }
         };
-        let Some((r, ng)) = refm::compile(p) else { return };
+        let Some((r, ng)) = refm::compile(it.reference.as_ref().unwrap_or(p)) else {
+            acc.count("pairs:not-modelled");
+            return;
+        };
         acc.count(if route(&re).is_vm() { "pairs:route:vm" } else { "pairs:route:wrapped" });
         for t in texts {
             let bs: Vec<usize> = gen::offsets(t).collect();
-            let mut froms = vec![0, *bs.get(1).unwrap_or(&0), bs[bs.len() / 2], bs[bs.len().saturating_sub(2)], bs[bs.len() - 1]];
+            let mut froms = if it.all_offsets { bs.clone() } else { vec![0, *bs.get(1).unwrap_or(&0), bs[bs.len() / 2], bs[bs.len().saturating_sub(2)], bs[bs.len() - 1]] };
             froms.sort();
             froms.dedup();
             for from in froms {
